@@ -588,6 +588,9 @@ fn dedent_bytes(source: &[u8], is_utf8_byte_string: bool) -> Result<Vec<u8>, Str
   )
 }
 
+#[cfg(feature = "additional-controls")]
+const PLUS_OVERFLOW: &str = "integer overflow in .plus operation";
+
 /// Numeric addition of target and controller. The Vec return type is to
 /// accommodate more than one type choice in the controller
 pub fn plus_operation<'a>(
@@ -600,13 +603,23 @@ pub fn plus_operation<'a>(
     Type2::UintValue { value, .. } => match controller {
       Type2::UintValue {
         value: controller, ..
-      } => values.push((value + controller).into()),
+      } => values.push(value.checked_add(*controller).ok_or(PLUS_OVERFLOW)?.into()),
       Type2::IntValue {
         value: controller, ..
-      } => values.push(((*value as isize + controller) as usize).into()),
+      } => values.push(
+        ((*value as isize)
+          .checked_add(*controller)
+          .ok_or(PLUS_OVERFLOW)? as usize)
+          .into(),
+      ),
       Type2::FloatValue {
         value: controller, ..
-      } => values.push(((*value as isize + *controller as isize) as usize).into()),
+      } => values.push(
+        ((*value as isize)
+          .checked_add(*controller as isize)
+          .ok_or(PLUS_OVERFLOW)? as usize)
+          .into(),
+      ),
       Type2::Typename { ident, .. } => {
         let nv = numeric_values_from_ident(cddl, ident);
         if nv.is_empty() {
@@ -646,13 +659,23 @@ pub fn plus_operation<'a>(
     Type2::IntValue { value, .. } => match controller {
       Type2::IntValue {
         value: controller, ..
-      } => values.push((value + controller).into()),
+      } => values.push(value.checked_add(*controller).ok_or(PLUS_OVERFLOW)?.into()),
       Type2::UintValue {
         value: controller, ..
-      } => values.push((value + *controller as isize).into()),
+      } => values.push(
+        value
+          .checked_add(*controller as isize)
+          .ok_or(PLUS_OVERFLOW)?
+          .into(),
+      ),
       Type2::FloatValue {
         value: controller, ..
-      } => values.push((value + *controller as isize).into()),
+      } => values.push(
+        value
+          .checked_add(*controller as isize)
+          .ok_or(PLUS_OVERFLOW)?
+          .into(),
+      ),
       Type2::Typename { ident, .. } => {
         let nv = numeric_values_from_ident(cddl, ident);
         if nv.is_empty() {
